@@ -130,8 +130,10 @@ func (p *Proxy) forwardRpc(source string, rpc *goatorepo.Rpc) {
 	vEmit("proxy.accept", p, rpc.GetId(), 0, source)
 	// Sanity check RPC first
 	if rpc.Header == nil || rpc.Header.Source != source {
-		log.Warn().Msgf("Bad Rpc: %v", rpc)
-		log.Panic().Msg("TODO: handle invalid RPC here (log and ignore?)")
+		// A peer must not be able to take the proxy down or to speak for another
+		// peer: log and ignore.
+		log.Warn().Str("source", source).Msgf("Ignoring invalid Rpc (missing header or foreign source): %v", rpc)
+		return
 	}
 
 	// Apply any sort of address translation first: this allows implementing a
